@@ -512,7 +512,8 @@ def judge(world, obs, sigbase, step_budget_factor=10):
             err = getattr(st, 'error', None)
             if not isinstance(err, error.PySmiError):
                 v('failed-without-error', '%s -> %r' % (k, err))
-            elif k in obs['injected'] and not any(err is e for e in obs['injected'][k]):
+            elif k in obs['injected'] and not any(err is e for e in obs['injected'][k]) and \
+                    world.get('text', {}).get(k, 'healthy') == 'healthy':
                 v('failed-carries-another-error', '%s: %r, injected %r' % (k, err, obs['injected'][k]))
 
     # --- agreement with the reference model
